@@ -115,6 +115,17 @@ CLAIMED["C38"] = dict(
     note="Trusted: z3/cvc5, ref/irarith.py (semantics taken from ir2py, the C lowering and the back ends, which agree; shift count outside [0,width) and zero divisors are premises), the proxy engine (helpers correct/remainder run if-converted, every path re-validated concretely on the untouched code). Outside: trees deeper than 2, chains longer than 3, computed << counts, float/pointer constants.",
     technique=TECH)
 
+CLAIMED["C02"] = dict(
+    level="translation_validation", design="§4 C02/C03, §11",
+    text="The REAL optimisation passes (each of the 9 passes alone, pass sequences, api.optimize levels) run on IR from two stated families: C functions through the real C front end (corpus/cprogs.py: arithmetic, loops, switch, globals, arrays, structs, pointer args, calls, tail calls, externals) and all CFG skeletons over <=3 blocks (thorough: + 80 sampled 4-block ones) in SSA form with phis, self loops and double edges (corpus/irprogs.py); for value-dependent passes the IR constants are SYMBOLIC so rewrites fork inside the real pass. The reference IR semantics (ref/irsem.py) of the module before and after are compared by z3 for ALL argument vectors, initial global contents, bytes behind pointer arguments and external-call results: same return value, same visible memory, same external call trace, under the premise that the original execution is defined.",
+    note="Trusted: z3, ref/irsem.py (wrap-around, truncating / %, explicit memory regions with pointer provenance; accesses outside the object a pointer was derived from are UB = premise), the engine. Loops unwound to 140 (thorough 300) IR instructions, call depth 3: longer executions are cut and counted, never claimed. Outside: floats, external functions that write memory visible to the caller, programs beyond the two families, 8 'heavy' corpus programs in the quick tier.",
+    technique=TECH_TV)
+CLAIMED["C03"] = dict(
+    level="model_checking", design="§4 C02/C03, §11",
+    text="Same runs as C02 (real passes on the C corpus and on all small CFG skeletons, constants symbolic for value-dependent passes): after every configuration and on every path the real verify_module accepts the result AND an independent structural re-check written from the property text passes (exactly one terminator at the end of each block, all blocks reachable, phi inputs == predecessors recomputed from terminators, operand types agree, definitions dominate uses by definition), and no exception other than CompilerError escapes the pass for ANY constant values (incl. zero divisors, negative or huge shift counts).",
+    note="The structural part is decided per explored path; the solver content is the constant dimension (which rewrites fire, which exceptions are reachable) and path feasibility. Trusted: the re-check in props/_passes.py, the engine. Outside: modules beyond the two stated families; pass sequences other than the listed ones.",
+    technique=TECH)
+
 NOT_APPLICABLE = {
     "C04": "property is about native execution of whole gcc/ppci-compiled programs; no x86-64 semantics model is in reach and running binaries is enumeration of concrete runs, not solver-based checking",
     "C06": "dataflow property over uninterpreted instruction semantics: a checker would be tag propagation in which a solver decides nothing",
